@@ -33,6 +33,11 @@ type undoCase struct {
 	Recs       []*Rec  // stored by block Height
 	Spent      [][]int // per record: output indices spent by block Height+1 (subset of the live ones)
 	NewRecs    []*Rec  // added by block Height+1
+	// ViaChain: block Height+1 is a block of transactions (Txs; the first is the coinbase) and its changes — DeledTxs,
+	// UndoData, AddList — are computed by chain.ProcessBlockTransactions on the real database (chainundo.go)
+	ViaChain bool
+	Sched    string // "free" | "commit-first": the undo file is serialised after db.commit() has finished
+	Txs      []chainTx
 }
 
 func (uc *undoCase) replay() map[string]interface{} {
@@ -51,7 +56,11 @@ func (uc *undoCase) replay() map[string]interface{} {
 		}
 		sp = append(sp, l)
 	}
-	return map[string]interface{}{"kind": "undo", "compressed": uc.Compressed, "alloc": uc.Alloc, "height": uc.Height, "recs": rs, "spent": sp, "newrecs": ns}
+	m := map[string]interface{}{"kind": "undo", "compressed": uc.Compressed, "alloc": uc.Alloc, "height": uc.Height, "recs": rs, "spent": sp, "newrecs": ns}
+	if uc.ViaChain {
+		m["via_chain"], m["sched"], m["txs"] = true, uc.Sched, txsReplay(uc.Txs)
+	}
+	return m
 }
 
 var (
@@ -61,6 +70,14 @@ var (
 	memSlots      []uint32
 	agedClasses   = map[int]int{}
 )
+
+// defaultSer: the serialiser of the format, not the (possibly wrapped) package variable
+func defaultSer(compressed bool) func(*utxo.UtxoRec, []byte) *[]byte {
+	if compressed {
+		return utxo.SerializeC
+	}
+	return utxo.SerializeU
+}
 
 func memClass(size int) int {
 	for i, s := range memSlots {
@@ -209,7 +226,10 @@ func checkUndo(kind string, uc *undoCase) {
 		kb.WriteString(rc.line())
 		fmt.Fprint(&kb, uc.Spent[i])
 	}
-	r.Eval("undo-"+mode+"-"+uc.Alloc+":"+kind, fmt.Sprint(mode, uc.Alloc, uc.Height, kb.String()))
+	if uc.ViaChain {
+		kind = "chain-" + uc.Sched + "-" + kind
+	}
+	r.Eval("undo-"+mode+"-"+uc.Alloc+":"+kind, fmt.Sprint(mode, uc.Alloc, uc.Height, uc.ViaChain, uc.Sched, kb.String()))
 	dir, err := os.MkdirTemp("", "vc10")
 	if err != nil {
 		fmt.Fprintln(os.Stderr, "tempdir:", err)
@@ -231,6 +251,7 @@ func checkUndo(kind string, uc *undoCase) {
 	var stored, afterSpend, afterUndo map[utxo.UtxoKeyType][]byte
 	undoBytes := map[utxo.UtxoKeyType][]byte{}
 	perr := ""
+	rejected := ""
 	hash1, hash2 := bytes.Repeat([]byte{0x11}, 32), bytes.Repeat([]byte{0x22}, 32)
 	func() {
 		defer func() {
@@ -269,14 +290,32 @@ func checkUndo(kind string, uc *undoCase) {
 			ch2.UndoData[rc.TxID] = u
 			var k utxo.UtxoKeyType
 			copy(k[:], rc.TxID[:])
-			if p := utxo.Serialize(u, nil); p != nil {
+			if p := defaultSer(uc.Compressed)(u, nil); p != nil {
 				undoBytes[k] = exact(*p)
 			}
 		}
 		for _, rc := range uc.NewRecs {
 			ch2.AddList = append(ch2.AddList, rc.toUtxo())
 		}
-		db.CommitBlockTxs(ch2, hash2)
+		var bl *btc.Block
+		if uc.ViaChain {
+			var changes *utxo.BlockChanges
+			if bl, changes, rejected = chainBlock(db, uc, hash2); rejected != "" {
+				return
+			}
+			if n, first := undoAliases(changes, db); n > 0 {
+				r.Hit("undo-chain:UndoData-aliases-stored-records")
+				if ownershipNote.what == "" {
+					ownershipNote.what = fmt.Sprintf("after ProcessBlockTransactions %d script(s) of BlockChanges.UndoData share memory with records of the UTXO maps (%s); CommitBlockTxs serialises UndoData concurrently with db.commit(), which frees those records", n, first)
+					ownershipNote.rep = rep
+				}
+			} else {
+				r.Hit("undo-chain:UndoData-owns-its-scripts")
+			}
+			commitScheduled(db, changes, hash2, uc.Sched)
+		} else {
+			db.CommitBlockTxs(ch2, hash2)
+		}
 		afterSpend = dbBytes(db)
 		if uc.Alloc == "client" {
 			// steady state of a running node for the size classes this undo will touch
@@ -298,17 +337,28 @@ func checkUndo(kind string, uc *undoCase) {
 			}
 		}
 		// the block is undone
-		bl := &btc.Block{}
-		for _, rc := range uc.NewRecs {
-			tx := new(btc.Tx)
-			tx.Hash.Hash = rc.TxID
-			bl.Txs = append(bl.Txs, tx)
+		if bl == nil {
+			bl = &btc.Block{}
+			for _, rc := range uc.NewRecs {
+				tx := new(btc.Tx)
+				tx.Hash.Hash = rc.TxID
+				bl.Txs = append(bl.Txs, tx)
+			}
 		}
 		db.UndoBlockTxs(bl, hash1)
 		afterUndo = dbBytes(db)
 	}()
 	if perr != "" {
 		fail("commit / partial spend / undo panics: " + perr)
+		return
+	}
+	if rejected != "" {
+		// the generated block is not one the chain code accepts (e.g. sigops): no verdict on this case
+		cls := rejected
+		if len(cls) > 40 {
+			cls = cls[:40]
+		}
+		r.Hit("undo-chain:block-rejected:" + cls)
 		return
 	}
 	// ---- property, in memory
@@ -496,6 +546,17 @@ func runUndo(g *vlib.Rng) {
 		alloc := []string{"client", "poison", "client", "poison", "goheap"}[i%5]
 		checkUndo("gen", genUndoCase(g, alloc, i%3 == 2))
 	}
+	// the same with the second block going through chain.ProcessBlockTransactions (chainundo.go)
+	m := r.N(120, 2000)
+	for i := 0; i < m && !loaderHung; i++ {
+		alloc := []string{"poison", "client", "poison", "client", "goheap"}[i%5]
+		sched := []string{"commit-first", "commit-first", "free"}[i%3]
+		checkUndo("gen", genChainCase(g, alloc, i%4 == 3, sched))
+	}
+	if ownershipNote.what != "" && r.Violations() == 0 {
+		// the ownership fact is broken but no schedule tried here turned it into a changed record
+		r.TieFail("undo-ownership", ownershipNote.what, ownershipNote.rep)
+	}
 	r.Extra["undo_client_allocator_classes_aged"] = len(agedClasses)
 }
 
@@ -531,5 +592,8 @@ func undoFromJSON(m map[string]interface{}) *undoCase {
 	for len(uc.Spent) < len(uc.Recs) {
 		uc.Spent = append(uc.Spent, nil)
 	}
+	uc.ViaChain, _ = m["via_chain"].(bool)
+	uc.Sched, _ = m["sched"].(string)
+	uc.Txs = txsFromJSON(m["txs"])
 	return uc
 }
